@@ -60,6 +60,7 @@ Proof.
   - exists ATau. apply as_tau.
   - exists ATau. apply as_tau.
   - exists ATau. apply as_tau.
+  - exists ATau. apply as_tau.
   - (* PuX *)
     destruct (stored && negb (has g (dst (fb fs)) n)) eqn:Es.
     + exists (AStore n). apply as_store; [reflexivity|].
